@@ -719,6 +719,352 @@ def formula_cases(chk, st, rng, only):
                                          "cholesky" if (not fast or not lp or n <= mc) else "iterative", None, None))
 
 
+# ------------------------------------------------------------------------------------------------ update 4: eigen-structured value models
+def _householder(v):
+    n, vv = len(v), sum(Fraction(x) * x for x in v)
+    return [[Fraction(int(i == j)) - 2 * Fraction(v[i]) * v[j] / vv for j in range(n)] for i in range(n)]
+
+
+def _fmul(A, B):
+    return [[sum(A[i][l] * B[l][j] for l in range(len(B))) for j in range(len(B[0]))] for i in range(len(A))]
+
+
+def _ft(A):
+    return [list(r) for r in zip(*A)]
+
+
+def rat_orth(rng, n):
+    """an exactly orthogonal rational matrix (product of two Householder reflections of integer vectors), never the identity"""
+    Q = [[Fraction(int(i == j)) for j in range(n)] for i in range(n)]
+    for _ in range(2 if n > 1 else 1):
+        while True:
+            v = [rng.randint(-2, 2) for _ in range(n)]
+            if sum(1 for x in v if x) >= min(2, n):
+                break
+        Q = _fmul(Q, _householder(v))
+    return Q
+
+
+def _fdiag(d):
+    return [[Fraction(d[i]) if i == j else Fraction(0) for j in range(len(d))] for i in range(len(d))]
+
+
+def _ften(A, dt=F64):
+    return torch.tensor([[float(x) for x in r] for r in A], dtype=dt)
+
+
+def eig_cases(chk, st, rng, only):
+    """Library results of the eigen-structured `_solve` overrides / BatchRepeat._cholesky_solve / the N-factor Kronecker loop vs the Lean
+    value models.  The models are fed EXACT primitive outputs (rational orthogonal eigenvectors, eigenvalues whose shifted products are
+    perfect squares, exact inverse roots); the library computes its own in floating point; both must equal A^{-1} rhs (1e-9)."""
+    from linear_operator.operators import (BatchRepeatLinearOperator, ConstantDiagLinearOperator, DiagLinearOperator,
+                                           KroneckerProductAddedDiagLinearOperator, KroneckerProductDiagLinearOperator,
+                                           KroneckerProductLinearOperator, SumKroneckerLinearOperator, TriangularLinearOperator)
+    dt = F64
+    reps = 2 if chk.tier == "quick" else 6
+    # eigenvalue sets with e1[i]*e2[j] + 1 a perfect square for every pair
+    E1 = {1: [[8], [1]], 2: [[1, 8], [8, 1]], 3: [[1, 8, 1], [8, 8, 1]]}
+    E2 = {1: [[3], [15]], 2: [[3, 15], [120, 3], [15, 15]], 3: [[3, 15, 120], [15, 3, 3], [120, 15, 3]]}
+    for rep in range(reps):
+        for (n1, n2) in ([(2, 3), (3, 2)] if chk.tier == "quick" else [(2, 3), (3, 2), (2, 2), (1, 3), (3, 1), (3, 3)]):
+            tag = f"[n1={n1}|n2={n2}|r={rep}]"
+            c = 2
+            N = n1 * n2
+            rhs = C.ri(rng, (N, c), -3, 3, dt)
+            Q1, Q2 = rat_orth(rng, n1), rat_orth(rng, n2)
+            jobs = []
+            # --- constant diagonal: K = (Q1 s^2 L1 Q1^T) x (Q2 L2 Q2^T), c = s^2
+            sc = rng.choice([Fraction(1), Fraction(2), Fraction(1, 2), Fraction(3)])
+            e1 = [Fraction(x) * sc * sc for x in rng.choice(E1[n1])]
+            e2 = [Fraction(x) for x in rng.choice(E2[n2])]
+            cst = sc * sc
+            K1, K2 = _fmul(_fmul(Q1, _fdiag(e1)), _ft(Q1)), _fmul(_fmul(Q2, _fdiag(e2)), _ft(Q2))
+            K1t, K2t = _ften(K1), _ften(K2)
+            jobs.append((f"C04/model/kpconst{tag}/_solve",
+                         f"kpconst {n1} {n2} {c} {fmt_mat(Q1)} {fmt_mat(Q2)} {fmt_list(e1)} {fmt_list(e2)} {fmt_list([cst])} {fm(rhs)}",
+                         lambda K1t=K1t, K2t=K2t, cst=cst: KroneckerProductAddedDiagLinearOperator(
+                             KroneckerProductLinearOperator(K1t.clone(), K2t.clone()),
+                             ConstantDiagLinearOperator(torch.tensor([float(cst)], dtype=dt), diag_shape=N))._solve(rhs)))
+            # --- Kronecker-constant diagonal: no square roots, arbitrary positive eigenvalues
+            f1 = [Fraction(rng.randint(1, 6)) for _ in range(n1)]
+            f2 = [Fraction(rng.randint(1, 6)) for _ in range(n2)]
+            d1, d2 = Fraction(rng.randint(1, 3)), Fraction(rng.choice([1, 2, 3]), rng.choice([1, 2]))
+            G1, G2 = _fmul(_fmul(Q1, _fdiag(f1)), _ft(Q1)), _fmul(_fmul(Q2, _fdiag(f2)), _ft(Q2))
+            G1t, G2t = _ften(G1), _ften(G2)
+            jobs.append((f"C04/model/kpkconst{tag}/_solve",
+                         f"kpkconst {n1} {n2} {c} {fmt_mat(Q1)} {fmt_mat(Q2)} {fmt_list(f1)} {fmt_list(f2)} {fmt_list([d1])} {fmt_list([d2])} {fm(rhs)}",
+                         lambda G1t=G1t, G2t=G2t, d1=d1, d2=d2: KroneckerProductAddedDiagLinearOperator(
+                             KroneckerProductLinearOperator(G1t.clone(), G2t.clone()),
+                             KroneckerProductDiagLinearOperator(ConstantDiagLinearOperator(torch.tensor([float(d1)], dtype=dt), n1),
+                                                                ConstantDiagLinearOperator(torch.tensor([float(d2)], dtype=dt), n2)))._solve(rhs)))
+            # --- general Kronecker diagonal (symmetrised): D_i entries perfect squares, K_i = D_i^{1/2} (Q L Q^T) D_i^{1/2}
+            r1 = [Fraction(rng.choice([1, 2, 3])) for _ in range(n1)]
+            r2 = [Fraction(rng.choice([1, 2]), rng.choice([1, 2])) for _ in range(n2)]
+            if n1 > 1 and len(set(r1)) == 1:
+                r1[0] = r1[0] + 1       # not a constant diagonal (that is the other branch)
+            dd1, dd2 = [x * x for x in r1], [x * x for x in r2]
+            S1, S2 = _fmul(_fmul(_fdiag(r1), G1), _fdiag(r1)), _fmul(_fmul(_fdiag(r2), G2), _fdiag(r2))
+            S1t, S2t = _ften(S1), _ften(S2)
+            jobs.append((f"C04/model/kpsymm{tag}/_solve",
+                         f"kpsymm {n1} {n2} {c} {fmt_mat(Q1)} {fmt_mat(Q2)} {fmt_list(f1)} {fmt_list(f2)} {fmt_list(dd1)} {fmt_list(dd2)} {fm(rhs)}",
+                         lambda S1t=S1t, S2t=S2t, dd1=dd1, dd2=dd2: KroneckerProductAddedDiagLinearOperator(
+                             KroneckerProductLinearOperator(S1t.clone(), S2t.clone()),
+                             KroneckerProductDiagLinearOperator(DiagLinearOperator(torch.tensor([float(x) for x in dd1], dtype=dt)),
+                                                                DiagLinearOperator(torch.tensor([float(x) for x in dd2], dtype=dt))))._solve(rhs)))
+            # --- sum of Kronecker products: C_i = L_i L_i^T (unit lower integer), R_i = L_i^{-T}, A_i = L_i (Q L Q^T) L_i^T
+            def unit_lower(n):
+                return [[Fraction(1) if i == j else (Fraction(rng.randint(-1, 1)) if j < i else Fraction(0)) for j in range(n)] for i in range(n)]
+            L1, L2 = unit_lower(n1), unit_lower(n2)
+            m1 = [Fraction(x) for x in rng.choice(E1[n1])]
+            m2 = [Fraction(x) for x in rng.choice(E2[n2])]
+            M1, M2 = _fmul(_fmul(Q1, _fdiag(m1)), _ft(Q1)), _fmul(_fmul(Q2, _fdiag(m2)), _ft(Q2))
+            A1, A2 = _fmul(_fmul(L1, M1), _ft(L1)), _fmul(_fmul(L2, M2), _ft(L2))
+            C1, C2 = _fmul(L1, _ft(L1)), _fmul(L2, _ft(L2))
+            R1, R2 = _ft(frac_inv(L1)), _ft(frac_inv(L2))
+            A1t, A2t, C1t, C2t = _ften(A1), _ften(A2), _ften(C1), _ften(C2)
+            jobs.append((f"C04/model/sumkron{tag}/_solve",
+                         f"sumkron {n1} {n2} {c} {fmt_mat(R1)} {fmt_mat(R2)} {fmt_mat(Q1)} {fmt_mat(Q2)} {fmt_list(m1)} {fmt_list(m2)} {fm(rhs)}",
+                         lambda A1t=A1t, A2t=A2t, C1t=C1t, C2t=C2t: SumKroneckerLinearOperator(
+                             KroneckerProductLinearOperator(A1t.clone(), A2t.clone()),
+                             KroneckerProductLinearOperator(C1t.clone(), C2t.clone()))._solve(rhs)))
+            # --- BatchRepeat._cholesky_solve: r repeats of a base batch of b triangular factors
+            r_, b_ = rng.choice([(2, 1), (2, 2), (3, 2), (1, 2)]), None
+            r_, b_ = r_
+            n = n2
+            Lb = torch.tril(C.ri(rng, (b_, n, n), -2, 2, dt)) * (1 - torch.eye(n, dtype=dt)) + torch.diag_embed(C.ri(rng, (b_, n), 1, 2, dt))
+            Xb = C.ri(rng, (r_ * b_, n, c), -3, 3, dt)
+            binv = ";".join(fmt_mat(frac_inv(to_frac_rows(Lb[k] @ Lb[k].mT))) for k in range(b_))
+            jobs.append((f"C04/model/brepsolve[r={r_}|b={b_}|n={n}|rep={rep}]/_cholesky_solve",
+                         f"brepsolve {r_} {b_} {n} {c} {binv} {fm(Xb.reshape(r_ * b_ * n, c))}",
+                         lambda Lb=Lb, Xb=Xb, r_=r_, b_=b_, n=n: BatchRepeatLinearOperator(
+                             TriangularLinearOperator(Lb.clone()), torch.Size((r_,)))._cholesky_solve(Xb).reshape(r_ * b_ * n, c)))
+            # --- N-factor Kronecker loop on the flat buffer (2, 3 and 4 factors)
+            for sizes in ([n1, n2], [n1, n2, 2], [2, n1, n2], [2, n1, 1, n2]):
+                Ks = [C.psd_int(rng, (), k, dt) for k in sizes]
+                Rn = 1
+                for k in sizes:
+                    Rn *= k
+                rk = C.ri(rng, (Rn, c), -3, 3, dt)
+                mx = max(sizes)
+                rows = []
+                for K in Ks:
+                    for row in frac_inv(to_frac_rows(K)):
+                        rows.append(list(row) + [Fraction(0)] * (mx - len(row)))
+                jobs.append((f"C04/model/kronn[sizes={'x'.join(map(str, sizes))}|r={rep}]/_solve",
+                             f"kronn {c} {fmt_list(sizes)} {fmt_mat(rows)} {fm(rk)}",
+                             lambda Ks=Ks, rk=rk: KroneckerProductLinearOperator(*[K.clone() for K in Ks])._solve(rk)))
+            for cell, line, fn in jobs:
+                if only and only != cell:
+                    continue
+                try:
+                    got = fn()
+                except Exception as e:  # noqa
+                    chk.violation(cell + "/exception", f"{type(e).__name__}: {str(e)[:200]}", {"cell": cell, "seed": chk.seed, "tier": chk.tier})
+                    continue
+                chk.case(cell + " " + line[:200], nontrivial=True)
+                chk.count("model/" + cell.split("/")[2].split("[")[0])
+                st["lines"].append(line)
+                st["expect"].append((cell, "value", got.double(), {"cell": cell, "seed": chk.seed, "tier": chk.tier}, None))
+
+
+# ------------------------------------------------------------------------------------------------ update 4: which algorithm ran (decision function)
+def cls_token(x):
+    """Lean `OpClass` of a catalogue instance (None: not classified)."""
+    nm = x.name.split("@")[0]
+    if nm.startswith("KroneckerAddedDiag[diag]"):
+        return "kpadloOther"
+    if nm.startswith("KroneckerAddedDiag[kronconst"):
+        return "kpadloKronConst"
+    if nm.startswith("KroneckerAddedDiag[krondiag"):
+        return "kpadloKronDiag"
+    if nm.startswith("SumKronecker"):
+        return "sumKron"
+    if nm.startswith("KroneckerTriangular"):
+        return "kronTri"
+    if nm.startswith("BlockInterleaved"):
+        return "blockInterleaved"
+    d = x.desc
+    if d is None:
+        return None
+    head = d.split(" ")[0]
+    return {"gen": "generic", "ad": "addedDiag", "diag": "diag", "id": "ident", "tri": "tri", "chol": "chol", "kron": "kron", "kron3": "kron",
+            "kpc": "kpadloConst", "lrrad": "lrrad", "block": "blockDiag", "brep": "batchRepeat"}.get(head)
+
+
+@contextlib.contextmanager
+def algo_spy(rec):
+    """Record, in call order, the selection-relevant calls: `cholesky()` (public), every class's `_solve`, the two KPADLO constructors."""
+    import linear_operator.operators as O
+    from linear_operator.operators._linear_operator import LinearOperator
+    import linear_operator.operators.kronecker_product_added_diag_linear_operator as KP
+    saved = []
+
+    def wrap(owner, name, tag):
+        orig = owner.__dict__[name]
+
+        def f(self, *a, **k):
+            pre = k.get("preconditioner", a[1] if len(a) > 1 else None) if name == "_solve" else None
+            rec.append((tag, type(self).__name__, pre is not None))
+            return orig(self, *a, **k)
+        saved.append((owner, name, orig))
+        setattr(owner, name, f)
+
+    wrap(LinearOperator, "cholesky", "cholesky")
+    seen = set()
+    for cname in dir(O):
+        cls = getattr(O, cname)
+        if isinstance(cls, type) and issubclass(cls, LinearOperator):
+            for k in cls.__mro__:
+                if k not in seen and "_solve" in k.__dict__ and issubclass(k, LinearOperator):
+                    seen.add(k)
+                    wrap(k, "_solve", "_solve:" + k.__name__)
+    for fn in ("_constant_kpadlt_constructor", "_symmetrize_kpadlt_constructor"):
+        orig = getattr(KP, fn)
+        saved.append((KP, fn, orig))
+        setattr(KP, fn, (lambda orig, fn: (lambda *a, **k: (rec.append((fn, "", False)), orig(*a, **k))[1]))(orig, fn))
+    try:
+        yield
+    finally:
+        for owner, name, orig in saved:
+            setattr(owner, name, orig)
+
+
+def observed_algo(rec, evs):
+    """Name (Lean `Algo.name`) of the algorithm the recorded call sequence shows at the top level."""
+    if not rec:
+        return "structured"          # a class-specific `solve` ran without touching cholesky() / any `_solve`
+    tag, cname, pre = rec[0]
+    if tag == "cholesky":
+        return "cholFresh"           # the cached-factor scenarios refine this to cholCached when no factorization was logged
+    if tag == "_solve:LinearOperator":
+        return "pcg+precond" if pre else "pcg"
+    if tag == "_solve:KroneckerProductLinearOperator":
+        return "kronFactors"
+    if tag == "_solve:KroneckerProductAddedDiagLinearOperator":
+        nxt = [t for t, _, _ in rec[1:3]]
+        if nxt[:1] == ["_constant_kpadlt_constructor"]:
+            return "eigKronConst"
+        if nxt[:1] == ["_symmetrize_kpadlt_constructor"]:
+            return "eigSymm"
+        if nxt[:1] == ["_solve:LinearOperator"]:
+            return "pcg+precond" if rec[1][2] else "pcg"
+        return "eigConst"
+    if tag == "_solve:SumKroneckerLinearOperator":
+        return "sumKronCongr"
+    if tag == "_solve:LowRankRootAddedDiagLinearOperator":
+        return "woodbury" if any(e.startswith("chol:") for e in evs) else "woodbury+cached"
+    if tag in ("_solve:BlockDiagLinearOperator", "_solve:BlockInterleavedLinearOperator"):
+        return "blockBase"
+    if tag in ("_solve:TriangularLinearOperator", "_solve:CholLinearOperator"):
+        return "structured"
+    return "other:" + tag
+
+
+STRUCTURED_ALGOS = {"triSubst", "kronTriFactors", "cholSubst", "cholHalf", "diagDiv", "identCopy"}
+
+
+def method_cases(chk, st, rng, only):
+    """The decision function `methodOf` vs the call sequence of the real library, over classes x settings x entry points, and the
+    cached-factor scenarios (a factor cached on the caller's object before the call)."""
+    from linear_operator.operators import AddedDiagLinearOperator, DenseLinearOperator, DiagLinearOperator
+    dt = F64
+    n = 3
+    xs = build_instances(random.Random(f"C04:{chk.seed}:method"), dt, (), n)
+    cfgs = [("default", {}), ("mc0", {"mc": 0, "maxit": 200}), ("mc0|fastoff", {"mc": 0, "fast": False}), ("mc0|logprob-off", {"mc": 0, "logprob": False, "maxit": 200}),
+            ("mc0|prec5|minprec0", {"mc": 0, "ps": 5, "mp": 0, "maxit": 200}), ("mc0|prec0|minprec0", {"mc": 0, "ps": 0, "mp": 0, "maxit": 200}),
+            ("mc=n", {"mc": None}), ("mc=n-1", {"mc": -1, "maxit": 200})]
+    dflt = st["defaults"]
+    per_tok = {}
+    for x in xs:
+        tok = cls_token(x)
+        if tok is None or x.tags & {"D10", "tri-nondense", "singular", "inv-of-chol", "perm"}:
+            continue
+        per_tok[tok] = per_tok.get(tok, 0) + 1
+        if per_tok[tok] > (3 if chk.tier == "quick" else 8):
+            continue
+        N = x.dense.shape[-1]
+        B = C.ri(rng, (N, 2), -3, 3, dt)
+        for cfgname, cfg0 in cfgs:
+            cfg = dict(cfg0)
+            if cfg.get("mc", 0) is None:
+                cfg["mc"] = N
+            elif cfg.get("mc", 0) == -1:
+                cfg["mc"] = N - 1
+            for entry, via in (("solve", "solve"), ("invquad", "inv_quad")):
+                if not x.pd and (entry == "invquad" or True) and tok in ("tri", "kronTri") and entry == "invquad":
+                    continue
+                cell = f"C04/method/{x.name}[n={N}]/cfg={cfgname}/entry={entry}"
+                if only and only != cell:
+                    continue
+                rec = []
+                try:
+                    with capture() as cap, configured(cfg), algo_spy(rec):
+                        op = x.build()
+                        rec.clear()
+                        cap.msgs.clear()
+                        second = x.name.startswith("LowRankRootAddedDiag") and rng.random() < 0.5
+                        if second:
+                            op.solve(B)
+                            rec.clear()
+                            cap.msgs.clear()
+                        call_via(op, via, B, None)
+                        evs = parse_events(cap.msgs)
+                except Exception as e:  # noqa
+                    chk.count("method/skipped-exception")
+                    continue
+                obs = observed_algo(rec, evs)
+                if tok == "kronTri" and obs == "kronFactors":
+                    obs = "kronTriFactors"      # KroneckerProductTriangular.solve runs the inherited factor-by-factor loop
+                chk.case(cell + f" second={second}", nontrivial=True)
+                chk.count("method/" + entry)
+                mc, fast, lp = cfg.get("mc", dflt["mc"]), int(cfg.get("fast", True)), int(cfg.get("logprob", True))
+                st["lines"].append(f"method {entry} {tok} {N} {mc} {fast} {lp} {cfg.get('ps', dflt['ps'])} {cfg.get('mp', dflt['mp'])} 0 0 {int(second)}")
+                chk.count("method/class=" + tok)
+                st["expect"].append((cell, "method", obs, {"cell": cell, "seed": chk.seed, "tier": chk.tier}, None))
+    # ---- cached factors on the caller's object
+    A = C.psd_int(rng, (), n, dt)
+    dvec = C.ri(rng, (n,), 1, 3, dt)
+    B = C.ri(rng, (n, 2), -3, 3, dt)
+    mk = {"generic": (lambda: DenseLinearOperator(A.clone()), A),
+          "addedDiag": (lambda: AddedDiagLinearOperator(DenseLinearOperator(A.clone()), DiagLinearOperator(dvec.clone())), A + torch.diag(dvec))}
+    for tok, (make, dense) in mk.items():
+        Ainv = exact_inverse(dense)
+        for warm in ("none", "cholesky", "root"):
+            for entry, via in (("solve", "solve"), ("invquad", "inv_quad"), ("iql", "inv_quad_logdet")):
+                for cfgname, cfg in (("default", {}), ("mc0", {"mc": 0, "maxit": 200})):
+                    cell = f"C04/method/cache[{tok}]/warm={warm}/cfg={cfgname}/entry={entry}"
+                    if only and only != cell:
+                        continue
+                    rec = []
+                    with capture() as cap, configured(cfg), algo_spy(rec):
+                        op = make()
+                        if warm == "cholesky":
+                            op.cholesky()
+                        elif warm == "root":
+                            with configured({"mc": 800}):
+                                op.root_decomposition(method="cholesky")
+                        from linear_operator.operators import TriangularLinearOperator as _T
+                        tri_root = warm == "root" and isinstance(op.root_decomposition().root, _T)
+                        rec.clear()
+                        cap.msgs.clear()
+                        got = call_via(op, via, B, None)
+                        evs = parse_events(cap.msgs)
+                    obs = observed_algo(rec, evs)
+                    if obs == "cholFresh" and not any(e.startswith("chol:") for e in evs):
+                        obs = "cholCached"
+                    if entry == "iql" and not rec and not evs:
+                        obs = "cholFromRoot"
+                    want = (B * (Ainv @ B)).sum((-1, -2)) if via != "solve" else Ainv @ B
+                    err = float((got.double() - want).abs().max()) / max(1.0, float(want.abs().max()))
+                    chk.case(cell, nontrivial=True)
+                    chk.count("method/cache")
+                    if not err <= (1e-9 if "cg" not in {e.split(':')[0] for e in evs} else 1e-2):
+                        chk.violation(cell + "/value", f"value differs from A^-1 B by {err:.3e} (events {evs})", {"cell": cell, "seed": chk.seed, "tier": chk.tier})
+                    mc = cfg.get("mc", dflt["mc"])
+                    st["lines"].append(f"method {entry} {tok} {n} {mc} 1 1 {dflt['ps']} {dflt['mp']} {int(warm == 'cholesky' or (warm == 'root' and 'cholesky' in str(getattr(op, '_memoize_cache', {}).keys())))} {int(tri_root)} 0")
+                    st["expect"].append((cell, "method", obs, {"cell": cell, "seed": chk.seed, "tier": chk.tier}, None))
+
+
 # ------------------------------------------------------------------------------------------------ translator cross-check
 def cross_check(chk, facts):
     from linear_operator import settings
@@ -787,13 +1133,18 @@ def run(chk, only=None):
                 "min_preconditioning_size 0/2000, memory_efficient, linalg dtypes) x rhs kind (vector, matrix, 1 column, unbatched, "
                 "size-1 batch, extra batch dim) x left factor x entry point (solve, torch.linalg.solve, linear_operator.solve, inv_quad, "
                 "inverse, solve_triangular, second call); values from a per-cell RNG; non-trivial = operator larger than 1x1. "
-                "spec = exact rational inverse (Fractions) of the independent dense matrix")
+                "spec = exact rational inverse (Fractions) of the independent dense matrix. "
+                "Plus: value models of the eigen-structured _solve overrides / BatchRepeat._cholesky_solve / 2-4-factor Kronecker loops on exact "
+                "rational primitive outputs (factor sizes 2x3, 3x2; thorough also 2x2, 1x3, 3x1, 3x3); decision-function cells: up to 3 (thorough 8) "
+                "instances per operator class x 8 settings x {solve, inv_quad} and cached-factor scenarios {none, cholesky, root} x {solve, inv_quad, "
+                "inv_quad_logdet} x {default, mc0} for Dense and AddedDiag")
     chk.assumptions += [
         "floating point is not modelled: direct paths are compared at 1e-11 (f64; 1e-9 for the kappa~1e5 singular-factor instances) / 2e-3 (f32, incl. float64 data on an eigen path under a float32 symeig linalg dtype) relative to max|A^{-1}B|, CG cells by the mean relative "
         "residual <= 3*max(cg_tolerance, 1e-5), Lanczos-root cells (SumKronecker / Kronecker+Kronecker-const-diag above max_cholesky_size) at 1e-4",
         "cholesky_ex / eigh / solve_triangular / cholesky_solve meet their contracts (hypotheses of the theorems); CG's contract is C08",
         "condition numbers of the catalogue are <= ~1e3",
-        "operator descriptors (which Lean Op an instance is) are harness-side; checked by the trace comparison itself",
+        "operator descriptors (which Lean Op / OpClass an instance is) are harness-side; checked by the trace and call-sequence comparisons themselves",
+        "the algorithm that ran is read off the first selection-relevant call (cholesky() / a class's _solve / a KPADLO constructor) recorded by wrapping these methods",
     ]
     chk.prove("LinOp.Properties.C04", ["LinOp/C04", "LinOp/Core", "LinOp/Generated/C04Select.lean"])
     st = {"lines": [], "expect": [], "cases": 0, "defaults": defaults}
@@ -883,6 +1234,8 @@ def run(chk, only=None):
                     one_case(chk, st, x, F64, (), cfgname, cfg, kind, left, "solve", cell)
     frng = random.Random(f"C04:{chk.seed}:formula")
     formula_cases(chk, st, frng, only)
+    eig_cases(chk, st, random.Random(f"C04:{chk.seed}:eig"), only)
+    method_cases(chk, st, random.Random(f"C04:{chk.seed}:methodrng"), only)
     # ---------------- Lean driver ----------------
     outs = chk.run_driver("C04", st["lines"])
     if outs is not None:
@@ -895,6 +1248,12 @@ def run(chk, only=None):
                     chk.traces_validated += 1
                 else:
                     chk.corr_break(cell, f"Lean selectSolve says {o}, transcription of the source says {exp}", payload)
+            elif kind == "method":
+                ok = (o == exp) or (exp == "structured" and o in STRUCTURED_ALGOS)
+                if ok:
+                    chk.traces_validated += 1
+                else:
+                    chk.corr_break(cell + "/algorithm", f"library call sequence shows {exp} but the Lean decision function `methodOf` says {o}", payload)
             elif kind in ("trace", "trace-first", "trace-second"):
                 size, method, evs = o.split(" ")
                 model = [] if evs == "-" else evs.split(",")
